@@ -108,7 +108,16 @@ class ivmpf(object):
     __ge__ = _compare
 
     def __contains__(self, t):
-        t = self.ctx.mpf(t)
+        # membership is an exact predicate: ints and floats are exact
+        # numbers and must not be widened to the interval precision
+        if isinstance(t, int_types):
+            v = from_int(t)
+            t = self.ctx.make_mpf((v, v))
+        elif isinstance(t, float):
+            v = from_float(t)
+            t = self.ctx.make_mpf((v, v))
+        else:
+            t = self.ctx.mpf(t)
         return (self.a <= t.a) and (t.b <= self.b)
 
     def __str__(self):
